@@ -424,6 +424,33 @@ class Fn:
                 elif k == "Closure":
                     for i, p in enumerate(n["params"]):
                         add(p, lambda proj, n=n, i=i: ("closure_param", n, i, proj))
+        # `for pat in ITER`: the pattern binds the elements of ITER (through complete-iteration adapters)
+        if self.body:
+            for n in self.nodes():
+                if n.get("k") == "Match" and n.get("source", "").startswith("ForLoopDesugar") and is_call(peel(n["scrut"])) and (callee_name(peel(n["scrut"])) or "") == "into_iter":
+                    it = call_args(peel(n["scrut"]))
+                    if not it:
+                        continue
+                    src = peel(it[0])
+                    extra = []
+                    while src.get("k") == "MethodCall" and src["method"] in ("iter", "iter_mut", "into_iter", "by_ref", "rev", "flatten", "skip", "take", "cloned", "copied"):
+                        if src["method"] == "flatten":
+                            extra.append("Some.0")
+                        src = peel(src["recv"])
+                    for m in walk(n):
+                        if m is not n and m.get("k") == "Match" and m.get("source", "").startswith("ForLoopDesugar"):
+                            for a in m["arms"]:
+                                if str(pat_variant(a["pat"])).endswith("Some"):
+                                    for bnd, proj in pat_binding_projs(a["pat"]):
+                                        b[bnd["local"]] = {
+                                            "name": bnd["name"],
+                                            "mut": bnd["mode"].endswith("Mut)"),
+                                            "byref": "Yes" in bnd["mode"],
+                                            "origin": ("match", src, [("[]",)] + [(x,) for x in extra] + list(proj[1:]), a["pat"]),
+                                            "node": bnd,
+                                            "ty": bnd.get("ty"),
+                                        }
+                            break
         self._bind = b
         return b
 
